@@ -7,6 +7,7 @@ import (
 	"os"
 	"strconv"
 	"strings"
+	"testing/iotest"
 	"text/scanner"
 	"unicode"
 	"unicode/utf8"
@@ -49,6 +50,10 @@ func recordStream(enc *json.Encoder, def lexer.Definition, label string, nodrop 
 		sd, isStr := def.(lexer.StringDefinition)
 		bd, isBytes := def.(lexer.BytesDefinition)
 		switch {
+		case strings.HasSuffix(label, "/dataerr"):
+			l, err = def.Lex(fn, iotest.DataErrReader(strings.NewReader(in))) // the last bytes arrive together with io.EOF
+		case strings.HasSuffix(label, "/onebyte"):
+			l, err = def.Lex(fn, iotest.OneByteReader(strings.NewReader(in)))
 		case strings.HasSuffix(label, "/reader") || !isStr:
 			l, err = def.Lex(fn, strings.NewReader(in))
 		case strings.HasSuffix(label, "/bytes") && isBytes:
@@ -150,6 +155,8 @@ func lexstreamRecord(args []string) error {
 			if d, _ := safeNew(c.rules()); d != nil {
 				lexers = append(lexers, lx{d, "stateful:" + c.ID, nodrop})
 				lexers = append(lexers, lx{d, "stateful:" + c.ID + "/reader", nodrop})
+				lexers = append(lexers, lx{d, "stateful:" + c.ID + "/dataerr", nodrop})
+				lexers = append(lexers, lx{d, "stateful:" + c.ID + "/onebyte", nodrop})
 			}
 		}
 		if kinds["generated"] {
@@ -172,6 +179,13 @@ func lexstreamRecord(args []string) error {
 		lexers = append(lexers, lx{lexer.NewTextScannerLexer(func(s *scanner.Scanner) {
 			s.Mode = scanner.GoTokens &^ scanner.SkipComments
 		}), "textcfg", false})
+	}
+	if kinds["textquiet"] {
+		// a scanner whose Error callback does not fail the lexing (undecodable bytes become tokens of their own)
+		lexers = append(lexers, lx{lexer.NewTextScannerLexer(func(s *scanner.Scanner) {
+			s.Error = func(*scanner.Scanner, string) {}
+		}), "textquiet", false})
+		lexers = append(lexers, lx{lexer.TextScannerLexer, "text/dataerr", false})
 	}
 	traces, events := 0, 0
 	for _, l := range lexers {
